@@ -136,7 +136,7 @@ func ZZ_C19() {
 	}
 	var active []act
 	var spawned *act // an actor made known to the cluster by Cluster.Spawn: kind "ab" (the name of kind "a" is a prefix of it), id "z", on any member
-	ids := []string{"x", "y"}
+	ids := []string{"x", "http://y/"} // ids are opaque: one that a path- or URL-normalising helper would rewrite
 	anyKind := func() bool {
 		for i, n := range nodes {
 			if inView[i] && n.kindA {
